@@ -129,8 +129,6 @@ def run_case(case):
             return {'bucket': 'compile:%s' % (err[1] if len(err) > 1 else err[0]), 'got': list(err), 'case': case}, {}
         src = mod._source_code
         info = {'spilled': spilled(src), 'helpers': src.count('def _parse_function_')}
-        if info['spilled'] and case['inner'] in ('bound', 'count'):
-            return None, dict(info, excluded=True)      # known finding F28
         got = sut.run(mod, None, text, budget=8.0)
         want = ('OK', peg.canon(v), len(text))
         if got != want:
@@ -241,8 +239,7 @@ class C17(Check):
             'right-recursive list) at depth 10^4 (quick) / 10^5 (thorough), results checked iteratively. Non-trivial iff the '
             'compiled source (include_source) shows that code was split into a helper function that is called, or the input '
             'depth exceeds Python\'s recursion limit; distinct by case tuple.')
-    assumptions = ['let-bound names / symbolic counts read inside code that was split into a helper are excluded after the '
-                   'first split: known finding F28 (same root cause as F11), witness replayed']
+    assumptions = ['two-nodes-per-layer wrappers are swept to depth 100 only: known finding F29 (Grammar() itself is recursive)']
     budget_quick = 170
     budget_thorough = 1700
     exhaustive = True
